@@ -143,14 +143,14 @@ def body(c):
     worst = {}
     above = 0
     for o in obs:
-        t = ver[o["id"]]
-        verdict, size, bound, coded, match, ideal = t[2], t[3], t[4], json.loads(t[5]), t[6], json.loads(t[7])
+        t = json.loads(ver[o["id"]][2])
+        verdict, size, bound, coded, match, ideal = t["verdict"], t["size"], t["bound"], t["coded"], t["match"], t["ideal"]
         cnt = o["obs"]["counters"]
         c.count_case({"text": o["text"]}, nontrivial=True)
         rec = {"family": o["family"], "n": o["n"], "size": size, "bytes": o["bytes"], "poly_bound": bound, "counters": dict(zip(COUNTERS, cnt)),
                "as_coded": coded, "ideal": ideal, "wall_us": o["obs"]["wallUs"], "refused": o["obs"]["refused"], "text": o["text"][:400]}
         c.verdict(verdict, rec, "checking work %d exceeds PolyBound %d (size %d) and is not explained by DevNoMemo" % (max(cnt), bound, size))
-        if match != "match":
+        if not match:
             c.drift("request %d (%s n=%s): counters %s but Visits_asCoded %s" % (o["id"], o["family"], o["n"], cnt, coded))
         if verdict != "ok":
             above += 1
@@ -171,9 +171,9 @@ def body(c):
                      "exercises all five counters' walkers" % (max_fan, max_n, nrand, ndag))
     big = [o for o in obs if o["family"] == "fanout"][-1]
     for o in obs[:1] + [big] + [o for o in obs if o["family"] == "random"][:1]:
-        t = ver[o["id"]]
-        c.sample({"family": o["family"], "n": o["n"], "text": o["text"][:300], "size": t[3], "poly_bound": t[4], "counters": o["obs"]["counters"],
-                  "as_coded": json.loads(t[5]), "wall_us": o["obs"]["wallUs"], "verdict": t[2]})
+        t = json.loads(ver[o["id"]][2])
+        c.sample({"family": o["family"], "n": o["n"], "text": o["text"][:300], "size": t["size"], "poly_bound": t["bound"], "counters": o["obs"]["counters"],
+                  "as_coded": t["coded"], "wall_us": o["obs"]["wallUs"], "verdict": t["verdict"]})
     c.assumptions += ["work = the five hook counters (validation visitor calls, recursion/directive walkers, FindConflicts searches); parsing and the rules' own "
                       "bookkeeping are not counted; wall time is recorded, never judged",
                       "PolyBound = 4 * Size^2 with Size = definitions + selection nodes as written",
